@@ -564,6 +564,11 @@ func init() {
 					for n := -4; n <= 4; n++ {
 						d.Do(Ev{"op": "date.add", "a": a, "dy": 0, "dm": 0, "dd": n})
 					}
+					if dd == 1 && m%4 == 1 { // day counts beyond what a time.Duration holds (106 751 days)
+						for _, n := range []int{-1000000, -146097, -106752, -106751, 106751, 106752, 146097, 1000000} {
+							d.Do(Ev{"op": "date.add", "a": a, "dy": 0, "dm": 0, "dd": n})
+						}
+					}
 					for _, n := range []int{-12, -1, 1, 12} {
 						d.Do(Ev{"op": "date.add", "a": a, "dy": 0, "dm": n, "dd": 0})
 					}
